@@ -998,53 +998,119 @@ Proof.
     rewrite IH; auto. f_equal. unfold unlines. simpl. rewrite <- !app_assoc. reflexivity.
 Qed.
 
-Definition sec_text (s : bytes * list afield) : bytes :=
-  unlines (hdr_line (fst s) :: map render_line (snd s)).
+Lemma split_sections_sep l r cur acc : starts_with [x3d] (trim_space l) = true ->
+  split_sections (l :: r) cur acc = split_sections r [] (acc ++ [cur]).
+Proof. intros H. simpl. simpl in H. rewrite H. reflexivity. Qed.
 
-Definition sec_static_ok (s : bytes * list afield) : bool :=
-  sec_name_ok (fst s) && forallb field_static_ok (snd s).
+(* a document at the level of lines: the top-level lines and, per "MSG:" section, its name and
+   its body lines *)
+Definition lsec_lines (s : bytes * list bytes) : list bytes := sep80 :: hdr_line (fst s) :: snd s.
+Definition lsec_text (s : bytes * list bytes) : bytes := unlines (hdr_line (fst s) :: snd s).
+Definition doc_lines (tl : list bytes) (sl : list (bytes * list bytes)) : list bytes :=
+  tl ++ concat (map lsec_lines sl).
+Definition doc_deps (sl : list (bytes * list bytes)) : list (bytes * bytes) :=
+  map (fun s => (fst s, unlines (snd s))) sl.
+Definition lsec_ok (s : bytes * list bytes) : Prop :=
+  sec_name_ok (fst s) = true /\ Forall nonsep (snd s) /\ Forall no_nl (snd s).
 
-Lemma Forall_render (P : bytes -> Prop) fs :
-  (forall f, field_static_ok f = true -> P (render_line f)) ->
-  forallb field_static_ok fs = true -> Forall P (map render_line fs).
-Proof.
-  intros HP H. apply Forall_forall. intros l Hl. apply in_map_iff in Hl. destruct Hl as (f & <- & Hf).
-  apply HP. eapply forallb_In; eauto.
-Qed.
-
-Lemma split_sections_secs secs : forall cur acc,
-  forallb sec_static_ok secs = true ->
-  split_sections (concat (map sec_lines secs)) cur acc =
-  match secs with
+Lemma split_sections_secs sl : forall cur acc,
+  Forall lsec_ok sl ->
+  split_sections (concat (map lsec_lines sl)) cur acc =
+  match sl with
   | [] => match cur with [] => acc | _ => acc ++ [cur] end
-  | _ => acc ++ cur :: map sec_text secs
+  | _ => acc ++ cur :: map lsec_text sl
   end.
 Proof.
-  induction secs as [|s secs IH]; intros cur acc H; [reflexivity|].
-  simpl in H. apply andb_true_iff in H. destruct H as [Hs Hr].
-  unfold sec_static_ok in Hs. apply andb_true_iff in Hs. destruct Hs as [Hn Hf].
-  cbn [map concat]. unfold sec_lines at 1. cbn [app].
-  change (split_sections (sep80 :: ?x) cur acc) with
-    (if starts_with [x3d] (trim_space sep80) then split_sections x [] (acc ++ [cur])
-     else split_sections x (cur ++ sep80 ++ [x0a]) acc).
-  rewrite sep80_sep.
+  induction sl as [|s sl IH]; intros cur acc H; [reflexivity|].
+  inversion H as [|? ? Hs Hr]; subst. destruct Hs as (Hn & Hsep & _).
+  cbn [map concat]. unfold lsec_lines at 1. cbn [app].
+  rewrite split_sections_sep by apply sep80_sep.
   match goal with |- split_sections ?l _ _ = _ =>
-    change l with ((hdr_line (fst s) :: map render_line (snd s)) ++ concat (map sec_lines secs)) end.
-  rewrite split_sections_nonsep.
-  2:{ constructor; [apply hdr_nonsep; auto|]. apply Forall_render; auto. apply render_line_nonsep. }
-  rewrite IH; auto. cbn [app]. fold (sec_text s).
-  destruct secs as [|s2 secs].
-  - assert (Hne : sec_text s <> []) by (unfold sec_text, unlines, hdr_line; simpl; discriminate).
-    destruct (sec_text s); [congruence|]. rewrite <- app_assoc. reflexivity.
+    change l with ((hdr_line (fst s) :: snd s) ++ concat (map lsec_lines sl)) end.
+  rewrite split_sections_nonsep by (constructor; [apply hdr_nonsep; auto|auto]).
+  rewrite IH; auto. cbn [app]. fold (lsec_text s).
+  destruct sl as [|s2 sl].
+  - assert (Hne : lsec_text s <> []) by (unfold lsec_text, unlines, hdr_line; simpl; discriminate).
+    destruct (lsec_text s); [congruence|]. rewrite <- app_assoc. reflexivity.
   - rewrite <- app_assoc. reflexivity.
+Qed.
+
+Lemma doc_lines_no_nl tl sl : Forall no_nl tl -> Forall lsec_ok sl -> Forall no_nl (doc_lines tl sl).
+Proof.
+  intros Ht Hs. unfold doc_lines. apply Forall_app. split; auto.
+  apply Forall_concat. apply Forall_forall. intros ls Hls. apply in_map_iff in Hls.
+  destruct Hls as (s & <- & Hin). rewrite Forall_forall in Hs. destruct (Hs _ Hin) as (Hn & _ & Hnl).
+  unfold lsec_lines. constructor; [apply sep80_no_nl|]. constructor; [apply hdr_no_nl; auto|auto].
+Qed.
+
+Lemma lsec_text_dep s : lsec_ok s ->
+  (let ls := split_byte 10 (lsec_text s) in
+   (strip_prefix s_msg_prefix (trim_space (hd [] ls)), join_nl (tl ls))) = (fst s, unlines (snd s)).
+Proof.
+  intros (Hn & _ & Hnl). cbv zeta. unfold lsec_text.
+  rewrite split_unlines by (constructor; [apply hdr_no_nl; auto|auto]).
+  cbn [app hd tl]. rewrite hdr_key by exact Hn. rewrite join_nl_unlines. reflexivity.
+Qed.
+
+(* sectioning of a whole text: the top-level definition and the dependency table *)
+Lemma msgdef_doc tp sl :
+  Forall nonsep tp -> Forall no_nl tp -> Forall lsec_ok sl -> doc_lines tp sl <> [] ->
+  msgdef_top (join_nl (doc_lines tp sl)) = unlines tp /\
+  msgdef_deps (join_nl (doc_lines tp sl)) = doc_deps sl.
+Proof.
+  intros Hsep Hnl Hs Hne. unfold msgdef_top, msgdef_deps, msgdef_secs.
+  rewrite split_join_nl; auto; [|apply doc_lines_no_nl; auto].
+  unfold doc_lines. rewrite split_sections_nonsep by exact Hsep.
+  rewrite split_sections_secs by exact Hs. cbn [app].
+  destruct sl as [|s sl].
+  - assert (Hd : unlines tp <> []).
+    { unfold doc_lines in Hne. simpl in Hne. rewrite app_nil_r in Hne.
+      destruct tp as [|a tp']; [congruence|]. unfold unlines. simpl. destruct a; discriminate. }
+    destruct (unlines tp); [congruence|]. split; reflexivity.
+  - cbn [hd tl]. split; auto. unfold doc_deps. rewrite map_map. apply map_ext_in.
+    intros a Ha. apply lsec_text_dep. rewrite Forall_forall in Hs. auto.
+Qed.
+
+(* ------------------------------------------------------------------------------------------ *)
+(* lines that render a list of fields: canonical field lines, with any number of ignored lines
+   (blank, comment, constant) in between                                                       *)
+
+Definition skip_ok (raw : bytes) : bool :=
+  match classify_line raw with LSkip => true | _ => false end &&
+  negb (contains_byte 10 raw) && negb (starts_with [x3d] (trim_space raw)).
+
+Inductive renders : list bytes -> list afield -> Prop :=
+| rd_nil : renders [] []
+| rd_field f ls fs : field_static_ok f = true -> renders ls fs -> renders (render_line f :: ls) (f :: fs)
+| rd_skip raw ls fs : skip_ok raw = true -> renders ls fs -> renders (raw :: ls) fs.
+
+Lemma skip_ok_parts raw : skip_ok raw = true -> classify_line raw = LSkip /\ no_nl raw /\ nonsep raw.
+Proof.
+  unfold skip_ok, no_nl, nonsep. rewrite !andb_true_iff, !negb_true_iff. intros [[H1 H2] H3].
+  repeat split; auto. destruct (classify_line raw); auto; discriminate.
+Qed.
+
+Lemma renders_lines ls fs : renders ls fs -> Forall nonsep ls /\ Forall no_nl ls.
+Proof.
+  induction 1 as [|f ls fs Hf _ [IH1 IH2]|raw ls fs Hr _ [IH1 IH2]]; [split; constructor| |].
+  - split; constructor; auto; [apply render_line_nonsep|apply render_line_no_nl]; auto.
+  - apply skip_ok_parts in Hr. split; constructor; tauto.
+Qed.
+
+Lemma renders_map fs : forallb field_static_ok fs = true -> renders (map render_line fs) fs.
+Proof.
+  induction fs as [|f fs IH]; simpl; [constructor|]. rewrite andb_true_iff. intros [H1 H2].
+  constructor; auto.
 Qed.
 
 (* ------------------------------------------------------------------------------------------ *)
 (* the dependency table of a rendered graph                                                    *)
 
-Definition sec_def (fs : list afield) : bytes := unlines (map render_line fs).
-Definition graph_deps (secs : list (bytes * list afield)) : list (bytes * bytes) :=
-  map (fun s => (fst s, sec_def (snd s))) secs.
+Definition sec_static_ok (s : bytes * list afield) : bool :=
+  sec_name_ok (fst s) && forallb field_static_ok (snd s).
+
+Definition sec_rel (s : bytes * list afield) (l : bytes * list bytes) : Prop :=
+  fst l = fst s /\ renders (snd l) (snd s).
 
 Lemma dep_get_none k deps : ~ In k (map fst deps) -> dep_get k deps = None.
 Proof. intros H. destruct (dep_get k deps) eqn:E; auto. exfalso. apply H. eapply dep_get_In; eauto. Qed.
@@ -1055,42 +1121,41 @@ Proof.
   destruct (bytes_eqb k n) eqn:E; [apply bytes_eqb_eq in E; subst; tauto|]. apply IH. tauto.
 Qed.
 
-Lemma sec_get_In k secs fs : sec_get k secs = Some fs -> In (k, fs) secs.
+Lemma dep_get_doc k secs sl : Forall2 sec_rel secs sl -> nodup_b (map fst secs) = true ->
+  match sec_get k secs with
+  | Some sfs => exists ls, renders ls sfs /\ dep_get k (doc_deps sl) = Some (unlines ls)
+  | None => dep_get k (doc_deps sl) = None
+  end.
 Proof.
-  induction secs as [|[n fs'] r IH]; simpl; [discriminate|].
-  destruct (bytes_eqb k n) eqn:E; [|auto].
-  apply bytes_eqb_eq in E. subst. intros H. injection H as <-. auto.
+  induction 1 as [|[n fs] [n' ls] secs sl [Hn Hr] _ IH]; [reflexivity|].
+  simpl in Hn, Hr. subst n'. cbn [map fst nodup_b]. rewrite andb_true_iff, negb_true_iff.
+  intros [Hnin Hnd]. specialize (IH Hnd). cbn [sec_get doc_deps map fst snd dep_get].
+  fold (doc_deps sl). destruct (bytes_eqb k n) eqn:E.
+  - apply bytes_eqb_eq in E. subst k. apply mem_b_false in Hnin.
+    rewrite (sec_get_none _ _ Hnin) in IH. rewrite IH. exists ls. auto.
+  - destruct (sec_get k secs) as [sfs|].
+    + destruct IH as (ls' & Hr' & ->). exists ls'. auto.
+    + rewrite IH. reflexivity.
 Qed.
 
-Lemma dep_get_secs k secs : nodup_b (map fst secs) = true ->
-  dep_get k (graph_deps secs) = option_map sec_def (sec_get k secs).
-Proof.
-  induction secs as [|[n fs] r IH]; simpl; auto.
-  rewrite andb_true_iff, negb_true_iff. intros [Hn Hr]. fold (graph_deps r). rewrite IH; auto.
-  destruct (bytes_eqb k n) eqn:E.
-  - apply bytes_eqb_eq in E. subst. apply mem_b_false in Hn. rewrite sec_get_none; auto.
-  - destruct (sec_get k r); reflexivity.
-Qed.
-
-Lemma graph_deps_keys secs : map fst (graph_deps secs) = map fst secs.
-Proof. unfold graph_deps. rewrite map_map. reflexivity. Qed.
-
-Lemma lookup_dep_wf pkg secs w t sfs :
-  nodup_b (map fst secs) = true ->
+Lemma lookup_dep_wf pkg secs sl w t sfs :
+  Forall2 sec_rel secs sl -> nodup_b (map fst secs) = true ->
   opt_bytes_eqb (ref_target pkg (map fst secs) w) t = true -> sec_get t secs = Some sfs ->
-  lookup_dep pkg (graph_deps secs) w = Ok (ctx_pkg pkg w, t, sec_def sfs).
+  exists ls, renders ls sfs /\ lookup_dep pkg (doc_deps sl) w = Ok (ctx_pkg pkg w, t, unlines ls).
 Proof.
-  intros Hnd Ht Hs. unfold ref_target in Ht. unfold lookup_dep.
+  intros Hrel Hnd Ht Hs. unfold ref_target in Ht. unfold lookup_dep.
+  pose proof (dep_get_doc t _ _ Hrel Hnd) as Hget. rewrite Hs in Hget. destruct Hget as (ls & Hr & Hget).
+  exists ls. split; auto.
   destruct (mem_b w (map fst secs)) eqn:Em.
-  - cbn [opt_bytes_eqb] in Ht. apply bytes_eqb_eq in Ht. subst t. rewrite dep_get_secs, Hs; auto.
-  - rewrite (dep_get_none w).
-    2:{ rewrite graph_deps_keys. apply mem_b_false. exact Em. }
+  - cbn [opt_bytes_eqb] in Ht. apply bytes_eqb_eq in Ht. subst t. rewrite Hget. reflexivity.
+  - pose proof (dep_get_doc w _ _ Hrel Hnd) as Hw. apply mem_b_false in Em.
+    rewrite (sec_get_none _ _ Em) in Hw. rewrite Hw.
     destruct (bytes_eqb w s_header).
     + destruct (mem_b s_std_header (map fst secs)); [|discriminate]. cbn [opt_bytes_eqb] in Ht.
-      apply bytes_eqb_eq in Ht. subst t. rewrite dep_get_secs, Hs; auto.
+      apply bytes_eqb_eq in Ht. subst t. rewrite Hget. reflexivity.
     + destruct (negb (contains_byte 47 w)) eqn:Eq; [|discriminate].
       destruct (mem_b (pkg ++ x2f :: w) (map fst secs)); [|discriminate]. cbn [opt_bytes_eqb] in Ht.
-      apply bytes_eqb_eq in Ht. subst t. rewrite dep_get_secs, Hs; auto. cbn [option_map].
+      apply bytes_eqb_eq in Ht. subst t. rewrite Hget.
       unfold ctx_pkg. apply negb_true_iff in Eq. rewrite Eq. reflexivity.
 Qed.
 
@@ -1120,15 +1185,16 @@ Proof.
   - rewrite app_nil_r. apply pat_scalar. exact H91.
 Qed.
 
-Lemma go_fields rec pkg deps vis (sub_of : afield -> bool * list field) fs :
-  (forall fld, In fld fs -> field_static_ok fld = true /\
-                            resolve_type rec pkg deps vis (type_text (af_ty fld)) = Ok (sub_of fld)) ->
-  forall acc, go_spec rec pkg deps vis (map render_line fs ++ [[]]) acc
+
+Lemma go_renders rec pkg deps vis (sub_of : afield -> bool * list field) ls fs :
+  renders ls fs ->
+  (forall fld, In fld fs -> resolve_type rec pkg deps vis (type_text (af_ty fld)) = Ok (sub_of fld)) ->
+  forall acc, go_spec rec pkg deps vis (ls ++ [[]]) acc
               = Ok (acc ++ map (fun fld => tree_field fld (fst (sub_of fld)) (snd (sub_of fld))) fs).
 Proof.
-  induction fs as [|fld fs IH]; intros H acc.
+  induction 1 as [|fld ls fs Hs _ IH|raw ls fs Hraw _ IH]; intros H acc.
   - simpl. rewrite app_nil_r. reflexivity.
-  - destruct (H fld (or_introl eq_refl)) as (Hs & Hr). destruct (field_step _ Hs) as (Hc & Hp).
+  - pose proof (H fld (or_introl eq_refl)) as Hr. destruct (field_step _ Hs) as (Hc & Hp).
     cbn [map app go_spec]. rewrite Hc, Hp.
     assert (He : elem_type (line_tok fld)
                    match af_arr fld with
@@ -1141,39 +1207,38 @@ Proof.
     rewrite <- app_assoc. do 3 f_equal.
     unfold mk_field, tree_field, line_tok. destruct (af_arr fld); simpl; auto.
     rewrite app_nil_r. reflexivity.
+  - apply skip_ok_parts in Hraw. destruct Hraw as (Hc & _). cbn [app go_spec]. rewrite Hc. apply IH. exact H.
 Qed.
 
 (* ------------------------------------------------------------------------------------------ *)
 (* the main induction                                                                          *)
 
-Lemma resolve_wf secs : nodup_b (map fst secs) = true ->
-  forall af rf pkg vis fs, af <= rf -> wf_fields secs af pkg vis fs = true ->
-  resolve rf pkg (graph_deps secs) vis (sec_def fs) = Ok (tree_fields secs af fs).
+Lemma resolve_wf secs sl : Forall2 sec_rel secs sl -> nodup_b (map fst secs) = true ->
+  forall af rf pkg vis fs ls, af <= rf -> renders ls fs -> wf_fields secs af pkg vis fs = true ->
+  resolve rf pkg (doc_deps sl) vis (unlines ls) = Ok (tree_fields secs af fs).
 Proof.
-  intros Hnd. induction af as [|f IH]; intros rf pkg vis fs Hle Hwf; [discriminate|].
+  intros Hrel Hnd. induction af as [|f IH]; intros rf pkg vis fs ls Hle Hren Hwf; [discriminate|].
   destruct rf as [|rf']; [lia|]. rewrite resolve_S.
   cbn [wf_fields] in Hwf. rewrite forallb_forall in Hwf.
-  unfold sec_def. rewrite split_unlines.
-  2:{ apply Forall_forall. intros l Hl. apply in_map_iff in Hl. destruct Hl as (fld & <- & Hfld).
-      apply render_line_no_nl. specialize (Hwf _ Hfld). apply andb_true_iff in Hwf. tauto. }
-  rewrite (go_fields _ _ _ _
+  rewrite split_unlines by (apply (renders_lines _ _ Hren)).
+  rewrite (go_renders _ _ _ _
              (fun fld => match af_ty fld with
                          | APrim _ => (false, [])
                          | ARef _ t => (true, match sec_get t secs with
                                               | Some sfs => tree_fields secs f sfs | None => [] end)
-                         end)).
+                         end) _ _ Hren).
   - cbn [app tree_fields]. f_equal. apply map_ext. intros fld. destruct (af_ty fld); reflexivity.
   - intros fld Hfld. specialize (Hwf _ Hfld). apply andb_true_iff in Hwf. destruct Hwf as [Hs Hty].
-    split; auto. unfold resolve_type. destruct (af_ty fld) as [n|w t]; cbn [type_text].
+    unfold resolve_type. destruct (af_ty fld) as [n|w t]; cbn [type_text].
     + rewrite Hty. reflexivity.
     + rewrite !andb_true_iff, !negb_true_iff in Hty. destruct Hty as [[[Hnp Hrt] Hv] Hsub].
       rewrite Hnp. destruct (sec_get t secs) as [sfs|] eqn:Esec; [|discriminate].
-      rewrite (lookup_dep_wf _ _ _ _ _ Hnd Hrt Esec). cbn [bind]. rewrite Hv.
-      fold (sec_def sfs). rewrite (IH rf' _ _ _ ltac:(lia) Hsub). reflexivity.
+      destruct (lookup_dep_wf _ _ _ _ _ _ Hrel Hnd Hrt Esec) as (ls' & Hren' & ->). cbn [bind]. rewrite Hv.
+      rewrite (IH rf' _ _ _ _ ltac:(lia) Hren' Hsub). reflexivity.
 Qed.
 
 (* ------------------------------------------------------------------------------------------ *)
-(* the whole rendered text                                                                     *)
+(* the whole text                                                                              *)
 
 Lemma wf_graph_parts pkg g : wf_graph pkg g = true ->
   forallb field_static_ok (top g) = true /\ forallb sec_static_ok (sections g) = true /\
@@ -1181,63 +1246,111 @@ Lemma wf_graph_parts pkg g : wf_graph pkg g = true ->
   wf_fields (sections g) (S (length (sections g))) pkg [] (top g) = true.
 Proof. unfold wf_graph. rewrite !andb_true_iff. tauto. Qed.
 
-Lemma graph_lines_no_nl g :
-  forallb field_static_ok (top g) = true -> forallb sec_static_ok (sections g) = true ->
-  Forall no_nl (graph_lines g).
+Lemma sec_rel_ok secs sl : Forall2 sec_rel secs sl -> forallb sec_static_ok secs = true -> Forall lsec_ok sl.
 Proof.
-  intros Ht Hs. unfold graph_lines. apply Forall_app. split.
-  - apply Forall_render; auto. apply render_line_no_nl.
-  - apply Forall_concat. apply Forall_forall. intros ls Hls. apply in_map_iff in Hls.
-    destruct Hls as (s & <- & Hin). pose proof (forallb_In _ _ _ Hs Hin) as Hss.
-    unfold sec_static_ok in Hss. apply andb_true_iff in Hss. destruct Hss as [Hn Hf].
-    unfold sec_lines. constructor; [apply sep80_no_nl|]. constructor; [apply hdr_no_nl; auto|].
-    apply Forall_render; auto. apply render_line_no_nl.
+  induction 1 as [|s l secs sl [Hn Hr] _ IH]; [constructor|]. simpl. rewrite andb_true_iff.
+  intros [Hs Hrest]. constructor; auto. unfold sec_static_ok in Hs. apply andb_true_iff in Hs.
+  unfold lsec_ok. rewrite Hn. destruct (renders_lines _ _ Hr). tauto.
 Qed.
 
-Lemma sec_text_dep s : sec_static_ok s = true ->
-  (let ls := split_byte 10 (sec_text s) in
-   (strip_prefix s_msg_prefix (trim_space (hd [] ls)), join_nl (tl ls))) = (fst s, sec_def (snd s)).
+Lemma Forall2_len {A B} (R : A -> B -> Prop) l1 l2 : Forall2 R l1 l2 -> length l1 = length l2.
+Proof. induction 1; simpl; auto. Qed.
+
+(* most general form: any line-level document whose top-level lines and section bodies render
+   the fields of a well-formed graph (ignored lines allowed anywhere among the field lines) *)
+Theorem parse_doc pkg g tl sl :
+  wf_graph pkg g = true -> renders tl (top g) -> Forall2 sec_rel (sections g) sl ->
+  parse_msgdef pkg (join_nl (doc_lines tl sl)) = Ok (tree_of g).
 Proof.
-  unfold sec_static_ok. rewrite andb_true_iff. intros [Hn Hf]. cbv zeta. unfold sec_text.
-  rewrite split_unlines.
-  2:{ constructor; [apply hdr_no_nl; auto|]. apply Forall_render; auto. apply render_line_no_nl. }
-  cbn [app hd tl]. rewrite hdr_key by exact Hn. rewrite join_nl_unlines. reflexivity.
+  intros H Htop Hrel. destruct (wf_graph_parts _ _ H) as (Ht & Hs & Hnd & Hwf).
+  destruct (doc_lines tl sl) as [|l0 ls0] eqn:El.
+  - (* the empty document *)
+    unfold doc_lines in El. apply app_eq_nil in El. destruct El as [E1 E2]. subst tl.
+    destruct sl as [|s sl]; [|discriminate]. destruct g as [tp secs]. simpl in *.
+    inversion Htop; subst. inversion Hrel; subst. reflexivity.
+  - assert (Hne : doc_lines tl sl <> []) by (rewrite El; discriminate). rewrite <- El.
+    destruct (renders_lines _ _ Htop) as (Hsep & Hnl).
+    destruct (msgdef_doc tl sl Hsep Hnl (sec_rel_ok _ _ Hrel Hs) Hne) as (Etop & Edeps).
+    rewrite parse_msgdef_unfold, Etop, Edeps. unfold tree_of.
+    apply (resolve_wf _ _ Hrel Hnd); auto. unfold doc_deps. rewrite map_length.
+    rewrite <- (Forall2_len _ _ _ Hrel). lia.
 Qed.
 
-Lemma msgdef_render g :
-  forallb field_static_ok (top g) = true -> forallb sec_static_ok (sections g) = true ->
-  graph_lines g <> [] ->
-  msgdef_top (render_graph g) = sec_def (top g) /\
-  msgdef_deps (render_graph g) = graph_deps (sections g).
-Proof.
-  intros Ht Hs Hne. unfold msgdef_top, msgdef_deps, msgdef_secs, render_graph.
-  rewrite split_join_nl; auto; [|apply graph_lines_no_nl; auto].
-  unfold graph_lines. rewrite split_sections_nonsep.
-  2:{ apply Forall_render; auto. apply render_line_nonsep. }
-  rewrite split_sections_secs by exact Hs. cbn [app]. fold (sec_def (top g)).
-  destruct (sections g) as [|s secs] eqn:Es.
-  - assert (Hd : sec_def (top g) <> []).
-    { unfold graph_lines in Hne. rewrite Es in Hne. simpl in Hne. rewrite app_nil_r in Hne.
-      destruct (top g); [simpl in Hne; congruence|]. unfold sec_def, unlines. simpl.
-      destruct (render_line a); discriminate. }
-    destruct (sec_def (top g)); [congruence|]. split; reflexivity.
-  - cbn [hd tl]. split; auto. unfold graph_deps. rewrite map_map. apply map_ext_in.
-    intros a Ha. apply sec_text_dep. eapply forallb_In; eauto.
-Qed.
+(* the canonical rendering *)
+Lemma graph_lines_doc g :
+  graph_lines g = doc_lines (map render_line (top g))
+                            (map (fun s => (fst s, map render_line (snd s))) (sections g)).
+Proof. unfold graph_lines, doc_lines. rewrite map_map. reflexivity. Qed.
 
 Theorem parse_rendered pkg g : wf_graph pkg g = true -> parse_msgdef pkg (render_graph g) = Ok (tree_of g).
 Proof.
-  intros H. destruct (wf_graph_parts _ _ H) as (Ht & Hs & Hnd & Hwf).
-  destruct (graph_lines g) as [|l0 ls] eqn:El.
-  - (* the empty graph renders to the empty text *)
-    unfold graph_lines in El. apply app_eq_nil in El. destruct El as [E1 E2].
-    destruct g as [tp secs]. simpl in *. destruct tp; [|discriminate].
-    destruct secs; [|discriminate]. reflexivity.
-  - assert (Hne : graph_lines g <> []) by (rewrite El; discriminate).
-    destruct (msgdef_render g Ht Hs Hne) as (Etop & Edeps).
-    rewrite parse_msgdef_unfold, Etop, Edeps. unfold tree_of.
-    apply resolve_wf; auto. unfold graph_deps. rewrite map_length. lia.
+  intros H. destruct (wf_graph_parts _ _ H) as (Ht & Hs & _).
+  unfold render_graph. rewrite graph_lines_doc. apply parse_doc; auto.
+  - apply renders_map. exact Ht.
+  - clear H Ht. induction (sections g) as [|s secs IH]; [constructor|].
+    simpl in Hs. apply andb_true_iff in Hs. destruct Hs as [H1 H2]. constructor; auto.
+    unfold sec_static_ok in H1. apply andb_true_iff in H1. split; [reflexivity|].
+    apply renders_map. tauto.
 Qed.
+
+(* ------------------------------------------------------------------------------------------ *)
+(* decorated graphs: field lines interleaved with ignored lines (comments, constants, blanks)  *)
+
+Definition item := (afield + bytes)%type.
+Record dgraph := { dtop : list item; dsections : list (bytes * list item) }.
+
+Definition item_line (i : item) : bytes := match i with inl f => render_line f | inr raw => raw end.
+Fixpoint item_fields (l : list item) : list afield :=
+  match l with [] => [] | inl f :: r => f :: item_fields r | inr _ :: r => item_fields r end.
+Definition erase (d : dgraph) : agraph :=
+  {| top := item_fields (dtop d);
+     sections := map (fun s => (fst s, item_fields (snd s))) (dsections d) |}.
+Definition dgraph_lines (d : dgraph) : list bytes :=
+  doc_lines (map item_line (dtop d)) (map (fun s => (fst s, map item_line (snd s))) (dsections d)).
+Definition render_dgraph (d : dgraph) : bytes := join_nl (dgraph_lines d).
+
+Definition skips_ok (l : list item) : bool :=
+  forallb (fun i => match i with inl _ => true | inr raw => skip_ok raw end) l.
+Definition wf_dgraph (pkg : bytes) (d : dgraph) : bool :=
+  wf_graph pkg (erase d) && skips_ok (dtop d) && forallb (fun s => skips_ok (snd s)) (dsections d).
+
+Lemma renders_items l :
+  forallb field_static_ok (item_fields l) = true -> skips_ok l = true ->
+  renders (map item_line l) (item_fields l).
+Proof.
+  induction l as [|[f|raw] l IH]; simpl; [constructor| |].
+  - rewrite andb_true_iff. intros [H1 H2] H3. constructor; auto.
+  - rewrite andb_true_iff. intros H1 [H2 H3]. constructor; auto.
+Qed.
+
+Theorem parse_decorated pkg d :
+  wf_dgraph pkg d = true -> parse_msgdef pkg (render_dgraph d) = Ok (tree_of (erase d)).
+Proof.
+  unfold wf_dgraph. rewrite !andb_true_iff. intros [[H Ht] Hs].
+  destruct (wf_graph_parts _ _ H) as (Hft & Hfs & _).
+  unfold render_dgraph, dgraph_lines. apply parse_doc; auto.
+  - apply renders_items; auto.
+  - simpl in Hfs |- *. clear H Hft Ht. induction (dsections d) as [|s secs IH]; [constructor|].
+    simpl in Hs, Hfs. apply andb_true_iff in Hs. apply andb_true_iff in Hfs.
+    destruct Hs as [Hs1 Hs2]. destruct Hfs as [Hf1 Hf2]. simpl. constructor; auto.
+    unfold sec_static_ok in Hf1. simpl in Hf1. apply andb_true_iff in Hf1.
+    split; [reflexivity|]. simpl. apply renders_items; tauto.
+Qed.
+
+(* what the ignored lines can be *)
+Lemma skip_blank raw : trim_space raw = [] -> classify_line raw = LSkip.
+Proof. intros H. unfold classify_line. rewrite H. reflexivity. Qed.
+
+Lemma skip_comment raw r : trim_space raw = x23 :: r -> classify_line raw = LSkip.
+Proof. intros H. unfold classify_line. rewrite H. reflexivity. Qed.
+
+Lemma skip_constant raw : trim_space raw <> [] ->
+  contains_byte 61 (hd [] (split_byte 35 (trim_space raw))) = true -> classify_line raw = LSkip.
+Proof.
+  intros Hne H. unfold classify_line. destruct (trim_space raw) as [|b r]; [congruence|].
+  destruct (is_byte b 35); auto. rewrite H. reflexivity.
+Qed.
+
 
 (* ------------------------------------------------------------------------------------------ *)
 (* a concrete self-referential family, for every parent package                                *)
@@ -1250,10 +1363,6 @@ Definition s_slash_foo : bytes := str [47;70;111;111]%N.     (* /Foo *)
 Definition cyc_lines (pkg : bytes) : list bytes :=
   [s_foo_x; sep80; s_msg_prefix ++ pkg ++ s_slash_foo; s_foo_y; []].
 Definition cyc_data (pkg : bytes) : bytes := join_nl (cyc_lines pkg).
-
-Lemma split_sections_sep l r cur acc : starts_with [x3d] (trim_space l) = true ->
-  split_sections (l :: r) cur acc = split_sections r [] (acc ++ [cur]).
-Proof. intros H. simpl. simpl in H. rewrite H. reflexivity. Qed.
 
 Lemma cyc_hdr_trim pkg :
   trim_space (s_msg_prefix ++ pkg ++ s_slash_foo) = s_msg_prefix ++ pkg ++ s_slash_foo.
@@ -1320,3 +1429,154 @@ Definition cyc_q_data : bytes :=
 
 Theorem cycle_qualified_is_error pkg : parse_msgdef pkg cyc_q_data = Err EOther.
 Proof. vm_compute. reflexivity. Qed.
+
+(* ------------------------------------------------------------------------------------------ *)
+(* the fuel is immaterial: once the answer is not OutOfFuel, more fuel gives the same answer   *)
+
+Lemma go_spec_mono rec1 rec2 pkg deps vis :
+  (forall a b c r, rec1 a b c = r -> r <> OutOfFuel -> rec2 a b c = r) ->
+  forall lines acc r, go_spec rec1 pkg deps vis lines acc = r -> r <> OutOfFuel ->
+                      go_spec rec2 pkg deps vis lines acc = r.
+Proof.
+  intros Hrec. induction lines as [|raw rest IH]; intros acc r; simpl; auto.
+  destruct (classify_line raw) as [|ftype fname|]; auto.
+  unfold resolve_type. destruct (mem_b _ primitives); cbn [bind]; auto.
+  destruct (lookup_dep pkg deps _) as [[[fpkg key] sub]| | | |]; cbn [bind]; auto.
+  destruct (mem_b key vis); cbn [bind]; auto.
+  destruct (rec1 fpkg (key :: vis) sub) as [fs|e|s|s|] eqn:E1.
+  - rewrite (Hrec _ _ _ _ E1) by discriminate. cbn [bind]. apply IH.
+  - rewrite (Hrec _ _ _ _ E1) by discriminate. auto.
+  - rewrite (Hrec _ _ _ _ E1) by discriminate. auto.
+  - rewrite (Hrec _ _ _ _ E1) by discriminate. auto.
+  - cbn [bind]. intros <- H. congruence.
+Qed.
+
+Lemma resolve_mono deps : forall f pkg vis def r,
+  resolve f pkg deps vis def = r -> r <> OutOfFuel -> resolve (S f) pkg deps vis def = r.
+Proof.
+  induction f as [|f IH]; intros pkg vis def r H Hr; [simpl in H; congruence|].
+  rewrite resolve_S in H. rewrite resolve_S.
+  eapply go_spec_mono; [|exact H|exact Hr]. intros a b c r' H' Hr'. apply IH; auto.
+Qed.
+
+Lemma resolve_more_fuel deps k : forall f pkg vis def r,
+  resolve f pkg deps vis def = r -> r <> OutOfFuel -> resolve (f + k) pkg deps vis def = r.
+Proof.
+  induction k as [|k IH]; intros f pkg vis def r H Hr; [rewrite Nat.add_0_r; auto|].
+  rewrite Nat.add_succ_r. apply resolve_mono; auto.
+Qed.
+
+Lemma fine_not_oof {A} (x : outcome A) : fine x -> x <> OutOfFuel.
+Proof. destruct x; simpl; auto; discriminate. Qed.
+
+(* the recursion depth never exceeds (number of sections) + 2, and any larger fuel gives the
+   result of ParseMessageDefinition *)
+Theorem parse_msgdef_depth pkg data k :
+  resolve (length (msgdef_deps data) + 2 + k) pkg (msgdef_deps data) [] (msgdef_top data)
+  = parse_msgdef pkg data.
+Proof.
+  rewrite parse_msgdef_unfold.
+  assert (H : fine (resolve (length (msgdef_deps data) + 2) pkg (msgdef_deps data) [] (msgdef_top data)))
+    by (apply resolve_fine; [constructor | intros x [] | simpl; lia]).
+  apply fine_not_oof in H.
+  rewrite (resolve_more_fuel _ k _ _ _ _ _ eq_refl H).
+  replace (length (msgdef_deps data) + 3) with (length (msgdef_deps data) + 2 + 1) by lia.
+  rewrite (resolve_more_fuel _ 1 _ _ _ _ _ eq_refl H). reflexivity.
+Qed.
+
+(* ------------------------------------------------------------------------------------------ *)
+(* a concrete mutual recursion p/A -> p/B -> p/A as an instance of the general cycle theorem   *)
+
+Definition mut_data : bytes :=
+  join_nl [str [65;32;120]%N; sep80; s_msg_prefix ++ str [112;47;65]%N; str [66;32;121]%N;
+           sep80; s_msg_prefix ++ str [112;47;66]%N; str [65;32;122]%N; []].
+
+Lemma mut_data_path :
+  exists ks pkg' def',
+    ref_path (msgdef_deps mut_data) (str [112]%N) (msgdef_top mut_data) ks pkg' def' /\ ~ NoDup ks.
+Proof.
+  set (p := str [112]%N). set (kA := str [112;47;65]%N). set (kB := str [112;47;66]%N).
+  set (dA := unlines [str [66;32;121]%N]). set (dB := unlines [str [65;32;122]%N; []]).
+  set (tp := unlines [str [65;32;120]%N]).
+  assert (Etop : msgdef_top mut_data = tp) by (vm_compute; reflexivity).
+  assert (Edeps : msgdef_deps mut_data = [(kA, dA); (kB, dB)]) by (vm_compute; reflexivity).
+  rewrite Etop, Edeps. exists [kA; kB; kA], p, dA. split.
+  - apply (rp_cons _ _ _ [kB; kA] p dB p kA dA).
+    + apply (rp_cons _ _ _ [kA] p dA p kB dB).
+      * apply (rp_cons _ _ _ [] p tp p kA dA); [constructor|].
+        exists (str [65;32;120]%N), (str [65]%N), (str [120]%N). repeat split; vm_compute; auto.
+      * exists (str [66;32;121]%N), (str [66]%N), (str [121]%N). repeat split; vm_compute; auto.
+    + exists (str [65;32;122]%N), (str [65]%N), (str [122]%N). repeat split; vm_compute; auto.
+  - intros H. inversion H as [|? ? Hn _]. apply Hn. right. left. reflexivity.
+Qed.
+
+(* ------------------------------------------------------------------------------------------ *)
+(* the canonical rendering followed by a final newline                                         *)
+
+Lemma join_nl_snoc ls : ls <> [] -> join_nl (ls ++ [[]]) = join_nl ls ++ [x0a].
+Proof.
+  induction ls as [|x ls IH]; [congruence|]. intros _. destruct ls as [|y r]; [reflexivity|].
+  change ((x :: y :: r) ++ [[]]) with (x :: ((y :: r) ++ [[]])).
+  transitivity (x ++ x0a :: join_nl ((y :: r) ++ [[]])); [apply join_nl_cons; discriminate|].
+  rewrite IH by discriminate.
+  transitivity ((x ++ x0a :: join_nl (y :: r)) ++ [x0a]); [rewrite <- app_assoc; reflexivity|].
+  reflexivity.
+Qed.
+
+Lemma renders_snoc ls fs : renders ls fs -> renders (ls ++ [[]]) fs.
+Proof.
+  induction 1; simpl; [|constructor; auto|constructor; auto].
+  apply rd_skip; [reflexivity|constructor].
+Qed.
+
+Fixpoint snoc_last (sl : list (bytes * list bytes)) : list (bytes * list bytes) :=
+  match sl with
+  | [] => []
+  | s :: r => match r with [] => [(fst s, snd s ++ [[]])] | _ => s :: snoc_last r end
+  end.
+
+Lemma snoc_last_lines sl : sl <> [] ->
+  concat (map lsec_lines (snoc_last sl)) = concat (map lsec_lines sl) ++ [[]].
+Proof.
+  induction sl as [|s r IH]; [congruence|]. intros _. destruct r as [|s2 r].
+  - simpl. rewrite !app_nil_r. reflexivity.
+  - change (snoc_last (s :: s2 :: r)) with (s :: snoc_last (s2 :: r)).
+    cbn [map concat]. rewrite IH by discriminate. rewrite <- app_assoc. reflexivity.
+Qed.
+
+Lemma snoc_last_rel secs sl : Forall2 sec_rel secs sl -> Forall2 sec_rel secs (snoc_last sl).
+Proof.
+  induction 1 as [|s l secs sl [Hn Hr] Hrest IH]; [constructor|].
+  destruct sl as [|l2 sl].
+  - inversion Hrest; subst. simpl. constructor; [|constructor]. split; [exact Hn|].
+    simpl. apply renders_snoc. exact Hr.
+  - change (snoc_last (l :: l2 :: sl)) with (l :: snoc_last (l2 :: sl)). constructor; auto. split; auto.
+Qed.
+
+Theorem parse_rendered_nl pkg g :
+  wf_graph pkg g = true -> parse_msgdef pkg (render_graph g ++ [x0a]) = Ok (tree_of g).
+Proof.
+  intros H. destruct (wf_graph_parts _ _ H) as (Ht & Hs & _).
+  assert (Hrel : Forall2 sec_rel (sections g) (map (fun s => (fst s, map render_line (snd s))) (sections g))).
+  { clear H Ht. induction (sections g) as [|s secs IH]; [constructor|].
+    simpl in Hs. apply andb_true_iff in Hs. destruct Hs as [H1 H2]. constructor; auto.
+    unfold sec_static_ok in H1. apply andb_true_iff in H1. split; [reflexivity|].
+    apply renders_map. tauto. }
+  pose proof (renders_map _ Ht) as Htop.
+  unfold render_graph. destruct (graph_lines g) as [|l0 ls0] eqn:El.
+  - unfold graph_lines in El. apply app_eq_nil in El. destruct El as [E1 E2].
+    destruct g as [tp secs]. simpl in *. destruct tp; [|discriminate].
+    destruct secs; [|discriminate]. reflexivity.
+  - rewrite <- El, <- join_nl_snoc by (rewrite El; discriminate). rewrite graph_lines_doc.
+    remember (map render_line (top g)) as tp.
+    remember (map (fun s => (fst s, map render_line (snd s))) (sections g)) as sl.
+    destruct sl as [|s0 sl0].
+    + match goal with |- parse_msgdef _ (join_nl ?x) = _ =>
+        replace x with (doc_lines (tp ++ [[]]) [])
+          by (unfold doc_lines; simpl; rewrite !app_nil_r; reflexivity) end.
+      apply parse_doc; auto. apply renders_snoc; auto.
+    + match goal with |- parse_msgdef _ (join_nl ?x) = _ =>
+        replace x with (doc_lines tp (snoc_last (s0 :: sl0)))
+          by (unfold doc_lines; rewrite snoc_last_lines by discriminate; rewrite app_assoc; reflexivity) end.
+      apply parse_doc; auto. apply snoc_last_rel; auto.
+Qed.
